@@ -170,6 +170,7 @@ def verifiers_first(F, S, inv):
     access = {m["key"]: m["access"] for m in rec["methods"]}
     total = 0
     ops = []
+    ctx_eng = None
     for fn in sorted(F.functions.values(), key=lambda f: f.key):
         if fn.cls != AH or not fn.cfg or fn.d.get("ctor") or fn.d.get("implicit"):
             continue
@@ -180,11 +181,25 @@ def verifiers_first(F, S, inv):
         if not pub and not any(kind == "symbol" for _, kind in dps):
             continue            # private helpers on node positions (SwapNodes): their callers' positions come from the tables
         ops.append(fn)
-        eng = Engine(F, S)
-        eng.analyze(fn, frozenset(inv))
+        if pub:
+            eng = Engine(F, S)
+            eng.analyze(fn, frozenset(inv))
+        else:
+            # a private helper cannot be called from outside: it is judged in the contexts the public operations call it in
+            if ctx_eng is None:
+                ctx_eng = Engine(F, S)
+                for pf in sorted(F.functions.values(), key=lambda f: f.key):
+                    if pf.cls == AH and pf.cfg and not pf.d.get("ctor") and not pf.d.get("implicit") and access.get(pf.key) == "public":
+                        ctx_eng.analyze(pf, frozenset(inv))
+            eng = ctx_eng
         n = 0
         for (nd, base, idx, ext) in subscript_sites(fn):
-            site = final_site_facts(eng, fn, nd["id"]) or set()
+            site = final_site_facts(eng, fn, nd["id"])
+            if site is None:
+                if pub:
+                    site = set()
+                else:
+                    continue        # not reached from any public operation
             idx_x = expand(idx, definitions(site))
             args = [P(fn, i) for i, _ in dps]
             if not any(direct_mention(idx, a) or direct_mention(idx_x, a) for a in args):
@@ -372,10 +387,17 @@ def link_or_data_split(F, S):
                         if r[0] == "idx" and r[1] == ("mem", ("this",), "linkOrData"):
                             lod_vars.add(("var", d["n"], d["d"]))
         for nd in fn.nodes:
+            cmp_ = None
             if nd["k"] == "BinaryOperator" and nd.get("op") in ("<", "<=", ">", ">="):
                 ks = fn.kids(nd["id"])
-                l, r = fn.term(ks[0]), fn.term(ks[1])
-                op = nd["op"]
+                cmp_ = (nd["op"], fn.term(ks[0]), fn.term(ks[1]))
+            elif nd["k"] in CALLS and nd["k"] != "CXXOperatorCallExpr":
+                # a predicate helper that is just such a comparison (`IsLink(v)` for `v < nodeCount`), read at its call
+                t0 = fn.term(nd["id"])
+                if t0[0] == "op" and t0[1] in ("<", "<=", ">", ">="):
+                    cmp_ = (t0[1], t0[2], t0[3])
+            if cmp_ is not None:
+                op, l, r = cmp_
                 if r != nc and l == nc:
                     l, r = r, l
                     op = {"<": ">", ">": "<", "<=": ">=", ">=": "<="}[op]
